@@ -163,28 +163,123 @@ def zeroing_after_wrapping(prog, rep, R):
 
 # =========================================================================== C08
 
+def foreach_pairs(prog, body):
+    """[(call site, canonical range, sorted origin names of what the closure pushes)] for every `range.for_each(closure)` in body"""
+    seq = []
+    for c in body.calls():
+        if c.callee != "core::iter::traits::iterator::Iterator::for_each":
+            continue
+        rng = canon(body, c.args[0])
+        clos = None
+        a1 = c.args[1]
+        if a1["k"] in ("copy", "move"):
+            clos = body.locals[a1["place"]["l"]].get("closure")
+        cb = prog.body(norm(clos)) if clos else None
+        src = None
+        if cb is not None:
+            og = Origins(cb)
+            for pc in cb.calls():
+                if pc.callee in ("alloc::string::String::push_str", "alloc::string::String::push"):
+                    o = og.of_operand(pc.args[1])
+                    src = sorted((x[2].split("::")[-1] if x[0] == "call" else ("' '" if x == ("const", "char", 32) else str(x))) for x in o)
+        seq.append((c, rng, src))
+    return seq
+
+
+def _mentions(op, tainted):
+    return isinstance(op, dict) and op.get("k") in ("copy", "move") and op["place"]["l"] in tainted
+
+
+def _escapes_capacity_only(b, start):
+    """Forward taint from local `start`; returns the list of uses other than capacity hints (empty = harmless)."""
+    tainted = {start}
+    out = []
+    changed = True
+    while changed:
+        changed = False
+        for bb, i, s2 in b.stmts():
+            if s2["k"] != "assign":
+                continue
+            rv = s2["rv"]
+            ops = [rv.get("op"), rv.get("a"), rv.get("b")] + list(rv.get("ops", []))
+            pl = rv.get("place")
+            hit = any(_mentions(o, tainted) for o in ops if o) or (pl is not None and pl["l"] in tainted)
+            if hit and s2["dst"]["l"] not in tainted:
+                if s2["dst"]["p"]:
+                    out.append("stored into %s" % canon(b, {"k": "copy", "place": s2["dst"]}))
+                else:
+                    tainted.add(s2["dst"]["l"])
+                    changed = True
+    for c2 in b.calls():
+        if any(_mentions(a, tainted) for a in c2.args):
+            if (c2.callee or "").split("::")[-1] not in ("with_capacity", "reserve", "reserve_exact"):
+                out.append("argument of %s" % c2.callee)
+    for bb in b.reachable():
+        t = b.blocks[bb]["term"]
+        if t["k"] == "switch" and _mentions(t.get("discr"), tainted):
+            out.append("decision in bb%d" % bb)
+        if t["k"] == "return" and 0 in tainted:
+            out.append("returned")
+    return sorted(set(out))
+
+
+def getter_use_discipline(prog, rep, R):
+    """The indentation / continuation / newline strings are *emitted* by the emitters and *measured* by the measurers — never the other way round."""
+    emitters = [RECON, "pasfmt_core::rules::optimising_line_formatter::multiline_strings::StringFormatter::try_rewrite_string"]
+    n = 0
+    for g in ("get_indentation_str", "get_continuation_str", "get_newline_str"):
+        for c in prog.who_calls(RS + "::" + g):
+            b = c.body
+            if not b.crate.startswith("pasfmt") or not nondebug(b.npath):
+                continue
+            owner = b.npath.split("::{closure")[0]
+            if owner not in emitters:
+                continue
+            n += 1
+            dst = c.t.get("dst")
+            if dst is None or dst["p"]:
+                rep.fail(R, "getter-use:%s:%s" % (short(owner), g), "%s result stored through a projection in %s" % (g, short(b.npath)), where=c.where())
+                continue
+            uses = []
+            seen = {dst["l"]}
+            work = [dst["l"]]
+            while work:
+                l = work.pop()
+                for bb, i, s2 in b.stmts():
+                    if s2["k"] == "assign" and s2["rv"]["k"] in ("use", "ref", "cast") and not s2["dst"]["p"]:
+                        op = s2["rv"].get("op") or {"k": "copy", "place": s2["rv"].get("place")}
+                        pl = op.get("place") if op.get("k") in ("copy", "move") else None
+                        if pl and pl["l"] == l and s2["dst"]["l"] not in seen:
+                            seen.add(s2["dst"]["l"])
+                            work.append(s2["dst"]["l"])
+                for c2 in b.calls():
+                    for ai, a in enumerate(c2.args):
+                        if a["k"] in ("copy", "move") and a["place"]["l"] == l:
+                            uses.append((c2.callee or "?", ai))
+            bad = [u for u in uses if not (u[0] in ("alloc::string::String::push_str",) and u[1] == 1)]
+            # measuring is tolerated when the number can only become a capacity hint
+            if bad and all(u[0] == "core::str::len" for u in bad):
+                esc = []
+                for c2 in b.calls():
+                    if c2.callee == "core::str::len" and any(a["k"] in ("copy", "move") and a["place"]["l"] in seen for a in c2.args):
+                        d2 = c2.t.get("dst")
+                        esc += _escapes_capacity_only(b, d2["l"]) if d2 and not d2["p"] else ["stored through a projection"]
+                if not esc:
+                    bad = []
+                else:
+                    bad = [("core::str::len -> " + e, 0) for e in esc]
+            rep.check(bool(uses) and not bad, R, "getter-use:%s:%s" % (short(owner), g),
+                      "in the emitter %s the result of %s is used by %s — an emitter may only append the configured string (widths are computed in LineWhitespace::len / nonbreaking_ws_len)" % (short(b.npath), g, sorted(set(bad)) or "nothing"),
+                      where=c.where(), instance={"emitter": short(b.npath), "getter": g, "uses": sorted({u[0].split("::")[-1] for u in uses})})
+    rep.floor(R, "getter calls inside the emitters", n, 5)
+
+
 def check_c08(prog, rep, tier, cfg):
     # ---------------------------------------------------------------- C08.a emission order and counter<->string pairing
     R = "C08.a"
     cl = prog.body(RCL)
     if rep.check(cl is not None, R, "anchor:reconstruct-closure", "reconstruct closure not found"):
-        fes = [c for c in cl.calls() if c.callee == "core::iter::traits::iterator::Iterator::for_each"]
-        seq = []
-        for c in fes:
-            rng = canon(cl, c.args[0])
-            clos = None
-            a1 = c.args[1]
-            if a1["k"] in ("copy", "move"):
-                clos = cl.locals[a1["place"]["l"]].get("closure")
-            cb = prog.body(norm(clos)) if clos else None
-            src = None
-            if cb is not None:
-                og = Origins(cb)
-                for pc in cb.calls():
-                    if pc.callee in ("alloc::string::String::push_str", "alloc::string::String::push"):
-                        o = og.of_operand(pc.args[1])
-                        src = sorted((x[2].split("::")[-1] if x[0] == "call" else ("' '" if x == ("const", "char", 32) else str(x))) for x in o)
-            seq.append((c, rng, src))
+        seq = foreach_pairs(prog, cl)
         counters = []
         for c, rng, src in seq:
             cnt = "newlines" if ("var:nls" in rng or "newlines_before" in rng) else ("indentations" if "indentations_before" in rng else ("continuations" if "continuations_before" in rng else ("spaces" if "spaces_before" in rng else rng)))
@@ -562,6 +657,15 @@ def check_c10(prog, rep, tier, cfg):
         cs = sorted({c.body.npath.split("::{closure")[0] for c in prog.who_calls(RS + "::" + g) if c.body.crate.startswith("pasfmt") and nondebug(c.body.npath)})
         inventory(rep, R, "users of " + g, cs, [RECON, "pasfmt_core::rules::optimising_line_formatter::multiline_strings::StringFormatter::try_rewrite_string",
                                                  "pasfmt_core::defaults::reconstructor::DelphiLogicalLinesReconstructor::nonbreaking_ws_len", OLF + "types::LineWhitespace::len"], "emit / measure / cursor only")
+    tr = prog.body("pasfmt_core::rules::optimising_line_formatter::multiline_strings::StringFormatter::try_rewrite_string")
+    if rep.check(tr is not None, R, "anchor:try_rewrite_string", "try_rewrite_string not found"):
+        prs = []
+        for c, rng, src in foreach_pairs(prog, tr):
+            cnt = "indentations" if "indentations_before" in rng else ("continuations" if "continuations_before" in rng else rng)
+            prs.append((cnt, src))
+        want = [("indentations", ["get_indentation_str"]), ("continuations", ["get_continuation_str"])]
+        rep.check(prs == want, R, "AGREE:rewrite-width", "try_rewrite_string re-indents interior lines with %s (expected %s: one configured string per counter unit)" % (prs, want), instance={"pairs": [[a, b] for a, b in prs]})
+    getter_use_discipline(prog, rep, R)
     import layout as _self
     _self.rs_new_table(prog, rep, R)
 
@@ -579,6 +683,27 @@ def check_c11(prog, rep, tier, cfg):
             f = dict(zip(agg[0]["rv"]["fields"], agg[0]["rv"]["ops"]))
             ok = canon(cv, f["max_line_length"]) == "arg1.wrap_column" and canon(cv, f["format_multiline_strings"]) == "arg1.format_multiline_strings" and f["iteration_max"]["k"] == "const"
         rep.check(ok, R, "wrap_column->max_line_length", "wrap_column is not passed unchanged as max_line_length")
+        # the width has exactly one consumer inside the conversion: no decision and no other settings field may depend on it
+        from table import Table, vdesc
+        try:
+            tb = Table(prog, cv)
+        except Exception as e:
+            tb = None
+            rep.fail(R, "wrap_column-single-use", "conversion is not a loop-free classifier any more: %s" % e)
+        if tb is not None:
+            leaks = set()
+            for cons, res in tb.rows:
+                for c in cons:
+                    if "wrap_column" in str(c[1]):
+                        leaks.add("decision on %s" % (c[1],))
+                if res.kind == "agg" and len(agg) == 1 and len(res.a[2]) == len(agg[0]["rv"]["fields"]):
+                    for fn, fv in zip(agg[0]["rv"]["fields"], res.a[2]):
+                        if fn != "max_line_length" and "wrap_column" in vdesc(fv):
+                            leaks.add("field %s = %s" % (fn, vdesc(fv)))
+                else:
+                    leaks.add("result is not a settings aggregate: %s" % vdesc(res))
+            rep.check(not leaks and len(tb.rows) >= 1, R, "wrap_column-single-use", "inside the conversion the configured width also feeds %s — other settings would change with the width" % sorted(leaks),
+                      instance={"rows": len(tb.rows), "leaks": sorted(leaks)})
     R = "C11.b"
     acc = [a for a in prog.field_accesses(OLF + "OptimisingLineFormatterSettings", "max_line_length") if a[3] in ("read", "ref") and nondebug(a[0].npath)]
     bodies = sorted({a[0].npath for a in acc})
